@@ -16,14 +16,18 @@ def _node(cfg, path):
     return n
 
 
-def shrink_case(case, fails, budget=120):
-    """`fails(case) -> bool`; returns a smaller case that still fails (or the original)"""
+def shrink_case(case, fails, budget=120, max_seconds=150):
+    """`fails(case) -> bool`; returns a smaller case that still fails (or the original).  Bounded in calls and in
+    wall time (a candidate that makes the engine hang costs a whole watchdog period)."""
+    import time
     best = copy.deepcopy(case)
     best.pop("features", None)
     calls = [0]
+    t_end = time.time() + max_seconds
 
     def ok(c):
-        if calls[0] >= budget:
+        if calls[0] >= budget or time.time() > t_end:
+            calls[0] = budget
             return False
         calls[0] += 1
         try:
